@@ -18,7 +18,7 @@ TRUSTED = ["harness/simnet.py virtual-time loop and in-memory transport follow t
            "aiohappyeyeballs.start_connection / loop.create_connection are replaced by the simulated network", "async_interrupt wakes the sleeping connector within the same virtual instant"]
 ASSUMPTIONS = ["one model event = one harness action followed by running the loop to quiescence at that virtual instant",
                "timers that fall on the same virtual instant: a waiting caller's deadline is processed before the connector's timer (the caller's cancellation is requested before the connector task can finish); the harness uses odd-unit caller timeouts so other ties do not arise",
-               "addresses are IPv4 literals (happy-eyeballs interleaving by family and _normalize_host are outside the model)"]
+               "address lists are single-family: IPv4 literals, or (every fifth history) scoped link-local IPv6 addresses that the socket reports in another textual form, so that _normalize_host is exercised; happy-eyeballs interleaving across families is outside the model"]
 EXPLANATION = ("Lean theorems C10_* over the supervisor automaton HapVerif.Reconnect (back-off table and bounds, single connector, what ends the retries, immediate retries need a new exclusion, every round after a sleep "
                "targets all addresses, waiting callers bounded and harmless, silence after close/shutdown) + constants regenerated from source + differential tie on attempt times/targets, census, waiter outcomes")
 
@@ -47,7 +47,9 @@ def run_cases(ctx: Ctx, driver: Driver, pid, sigs, cases):
     minimized = {}
     maxv = 0.0
     for i, (hosts, events, kind) in enumerate(cases):
-        sim = rcsim.run_scenario(hosts, events, seed=ctx.seed * 1000003 + i)
+        family = "v6" if (i % 5 == 4 and kind != "corpus") else "v4"
+        sim = rcsim.run_scenario(hosts, events, seed=ctx.seed * 1000003 + i, family=family)
+        ctx.dist["family:" + family] += 1
         ctx.evaluations += 1
         ctx.nontrivial.add((tuple(hosts), tuple(events)))
         ctx.dist["kind:" + kind] += 1
@@ -58,7 +60,7 @@ def run_cases(ctx: Ctx, driver: Driver, pid, sigs, cases):
         ctx.dist["attempts"] += sim.stats.get("attempts", 0)
         ctx.dist["connections"] += sim.stats.get("connections", 0)
         maxv = max(maxv, sim.stats.get("virtual_seconds", 0))
-        case = {"stream": "supervisor", "hosts": hosts, "events": events, "kind": kind, "seed": ctx.seed * 1000003 + i}
+        case = {"stream": "supervisor", "hosts": hosts, "events": events, "kind": kind, "seed": ctx.seed * 1000003 + i, "family": family}
         seen = set()
         for sig, text in sim.problems:
             if sig in sigs and sig not in seen:
@@ -66,7 +68,7 @@ def run_cases(ctx: Ctx, driver: Driver, pid, sigs, cases):
                 vcase = dict(case)
                 if sig not in minimized and len(minimized) < 4:
                     # shrink the first history of each kind to a minimal one that still fails the same way
-                    small = shrink_list(events, lambda evs, sig=sig: any(s2 == sig for s2, _ in rcsim.run_scenario(hosts, evs, seed=vcase["seed"]).problems))
+                    small = shrink_list(events, lambda evs, sig=sig: any(s2 == sig for s2, _ in rcsim.run_scenario(hosts, evs, seed=vcase["seed"], family=vcase["family"]).problems))
                     minimized[sig] = small
                     vcase["minimized_events"] = small
                     text = text + f" [minimal history: {' '.join(small)}]"
@@ -88,7 +90,7 @@ def run(ctx: Ctx, driver: Driver):
 
 
 def replay(ctx: Ctx, driver: Driver, case):
-    run_cases(ctx, driver, ID, SIGS, [(case["hosts"], case["events"], "replay")])
+    run_cases(ctx, driver, ID, SIGS, [(case["hosts"], case["events"], "replay")])  # family follows the case index rule
 
 
 def search(ctx: Ctx, driver: Driver, broken):
